@@ -1003,3 +1003,124 @@ def rule_regularized_copy_used(rep, fb, floor=2, name="GUARD.regularized-copy"):
     if n < 2:
         raise AnalysisError("only %d kernel calls after a regularised copy found" % n)
     return r.done()
+
+
+# ------------------------------------------------------------------------------------------------
+# a byte buffer for a strided copy is len * stride bytes
+
+def _nocast(e):
+    while isinstance(e, tuple) and e and e[0] == "cast":
+        e = e[3]
+    if isinstance(e, tuple) and e and e[0] == "bin":
+        return ("bin", e[1], _nocast(e[2]), _nocast(e[3]))
+    if isinstance(e, tuple) and e and e[0] == "paren":
+        return _nocast(e[1])
+    if isinstance(e, tuple):
+        return tuple(_nocast(x) if isinstance(x, tuple) else x for x in e if not isinstance(x, int) or x is e[0] or True)
+    return e
+
+
+def _noline3(e):
+    if isinstance(e, tuple):
+        t = tuple(_noline3(x) for x in e)
+        if t and isinstance(t[-1], int) and t[0] in ("mcall", "call", "ctor", "make"):
+            t = t[:-1]
+        return t
+    return e
+
+
+def rule_alloc_len_stride(rep, fb, floor=3, name="ALLOC.len-times-stride"):
+    r = rep.rule(name, "a raw byte buffer obtained with kernel::malloc<void>(lib, SIZE) and handed to a kernel that copies `len` chunks of `stride` bytes into it (parameters named len/length/lenstarts and stride of the "
+                 "kernel's dispatch function) has SIZE = len * stride, with the very expressions that are passed as those two arguments: sizing it by the item size where the chunks are whole rows "
+                 "(strides_[0]) makes every copy of a 3-d or deeper array write past the end", floor=floor)
+    sigs = {}
+    for f in fb.lib_funcs(inst=False):
+        if f["file"].endswith("kernel-dispatch.cpp"):
+            sigs.setdefault(f["name"], [p[0] for p in f["params"]])
+    n = 0
+    for f in fb.lib_funcs(inst=False):
+        if f["file"].endswith("kernel-dispatch.cpp"):
+            continue
+        for d in find_all(f["body"], lambda k: k[0] == "decl" and k[3] is not None and find_all((k[3],), lambda q: q[0] == "call" and q[1][0] == "fn" and "malloc" in str(q[1][1]) and len(q[2]) == 2)):
+            m_ = find_all((d[3],), lambda q: q[0] == "call" and q[1][0] == "fn" and "malloc" in str(q[1][1]) and len(q[2]) == 2)[0]
+            size = _noline3(_nocast(m_[2][1]))
+            P = d[1]
+            for c in find_all(f["body"], lambda k: k[0] == "call" and k[1][0] == "fn" and str(k[1][1]).split("::")[-1] in sigs):
+                kn = str(c[1][1]).split("::")[-1]
+                ps = sigs[kn]
+                if len(ps) != len(c[2]) or "stride" not in ps:
+                    continue
+                # the buffer is the first pointer argument (the `to` side)?
+                toidx = next((i for i, p in enumerate(ps) if p.startswith("to")), None)
+                if toidx is None or not find_all((c[2][toidx],), lambda q: q == ("var", P)):
+                    continue
+                # two branches may each declare a `ptr`: the call belongs to the nearest declaration above it
+                dl, cl = (d[-1] if isinstance(d[-1], int) else 0), (c[-1] if isinstance(c[-1], int) else 0)
+                if not dl <= cl or any(dl < (o[-1] if isinstance(o[-1], int) else 0) <= cl for o in find_all(f["body"], lambda k: k[0] == "decl" and k[1] == P and k is not d)):
+                    continue
+                lidx = next((i for i, p in enumerate(ps) if p in ("len", "length", "lenstarts", "lencarry")), None)
+                if lidx is None:
+                    continue
+                n += 1
+                L = _noline3(_nocast(c[2][lidx]))
+                S = _noline3(_nocast(c[2][ps.index("stride")]))
+                ok = size in (("bin", "*", L, S), ("bin", "*", S, L))
+                r.check(ok, "%s#%s@%s" % (f["qual"], P, kn), "%s:%d" % (f["file"], d[-1] if isinstance(d[-1], int) else f["line"]),
+                        "%s allocates `%s` with a size that is not (len argument) * (stride argument) of %s" % (f["qual"], P, kn), detail="len * stride")
+    if n < 2:
+        raise AnalysisError("only %d strided copies into raw buffers found" % n)
+    return r.done()
+
+
+# ------------------------------------------------------------------------------------------------
+# a search that ends in "not found: append" looks at the whole table
+
+def rule_search_whole_table(rep, fb, floor=2, name="SEARCH.whole-table"):
+    r = rep.rule(name, "a counting loop that looks an item up in a member table (`T_[j]` compared inside an `if` that returns on a match) in a method that appends to the same table when nothing was found "
+                 "starts at 0: a search that starts at a hint (`j = nexttotry_`) without wrapping around misses the entries before the hint, and the method then appends a duplicate "
+                 "(RecordBuilder::field_fast created a second field \"x\")", floor=floor)
+    n = 0
+    for f in fb.lib_funcs(inst=False):
+        pushes = {k[3][2] for k in find_all(f["body"], lambda k: k[0] == "mcall" and k[1] in ("push_back", "emplace_back") and k[3][0] == "member" and k[3][1] == ("this",))}
+        if not pushes:
+            continue
+
+        def onblock(stmts, f=f, pushes=pushes):
+            nonlocal n
+            for i, st in enumerate(stmts):
+                if st[0] != "for" or i == 0 or stmts[i - 1][0] != "decl":
+                    continue
+                ctr = stmts[i - 1][1]
+                if not find_all((st[1],), lambda q: q == ("var", ctr)) or not (st[1][0] == "bin" and st[1][1] in ("<", "!=")):
+                    continue
+                tables = set()
+                for cond_if in find_all(st[2], lambda k: k[0] == "if" and find_all(k[2], lambda q: q[0] == "return")):
+                    for sub in find_all((cond_if[1],), lambda q: q[0] == "idx" and q[1][0] == "member" and q[1][1] == ("this",) and find_all((q[2],), lambda z: z == ("var", ctr))):
+                        tables.add(sub[1][2])
+                hit = sorted(tables & pushes)
+                if not hit:
+                    continue
+                n += 1
+                init = stmts[i - 1][3]
+                while isinstance(init, tuple) and init and init[0] == "cast":
+                    init = init[3]
+                zero = init is not None and init[0] == "const" and init[1] in (0, "0")
+                r.check(zero, "%s#%s@%d" % (f["qual"], hit[0], n), "%s:%d" % (f["file"], st[-1] if isinstance(st[-1], int) else f["line"]),
+                        "%s searches `%s` from `%s` upwards only and appends to it when nothing is found: entries before the start are never compared" % (f["qual"], hit[0], str(_noline3(init))[:40]), detail="from 0")
+        cs.each_block(f["body"], onblock)
+        # the do-while form: it may start at a hint if it wraps around (`if (i >= size) i = 0;` inside)
+        for lp in find_all(f["body"], lambda k: k[0] == "dowhile"):
+            body = [x for x in lp[1:] if isinstance(x, tuple) and x and isinstance(x[0], tuple)]
+            body = body[0] if body else ()
+            tables = set()
+            for cond_if in find_all(body, lambda k: k[0] == "if" and find_all(k[2], lambda q: q[0] == "return")):
+                for sub in find_all((cond_if[1],), lambda q: q[0] == "idx" and q[1][0] == "member" and q[1][1] == ("this",) and q[2] and find_all((q[2],), lambda z: z[0] == "var")):
+                    tables.add((sub[1][2], find_all((sub[2],), lambda z: z[0] == "var")[0][1]))
+            for T, ctr in sorted(t for t in tables if t[0] in pushes):
+                n += 1
+                wraps = bool(find_all(body, lambda k: k[0] == "assign" and k[1] == ("var", ctr) and k[2][0] == "const" and k[2][1] in (0, "0")))
+                r.check(wraps, "%s#%s@dowhile%d" % (f["qual"], T, n), "%s:%d" % (f["file"], lp[-1] if isinstance(lp[-1], int) else f["line"]),
+                        "%s searches `%s` in a do-while loop that never wraps its counter `%s` back to 0 and appends when nothing is found" % (f["qual"], T, ctr), detail="wraps around")
+    if n < 2:
+        raise AnalysisError("only %d find-or-append searches found" % n)
+    return r.done()
